@@ -3,6 +3,7 @@ import PGV.Model.Utf8
 import PGV.Model.RuleText
 import PGV.Model.Value
 import PGV.Model.Lang
+import PGV.Model.TimeParse
 
 /-!
 # Model of the rule functions (`valid/validfn.go`, helpers of `valid/common.go`, `valid/init.go`)
@@ -309,7 +310,7 @@ def ruleIp (ext : Ext) (v o f : Bytes) (tv : GoVal) (want : Nat) : M Bytes :=
       pure (if want == 0 then a.code != 0 else a.code == want))
     (if want == 0 then b! "it is not ip" else if want == 1 then b! "it is not ipv4" else b! "it is not ipv6")
 
-/-! ### date rules: `GetTimeFmt` is modelled, `time.Parse` is a residual -/
+/-! ### date rules: `GetTimeFmt` is modelled; `time.Parse` is modelled for the layout elements it builds, a residual otherwise -/
 
 /-- `GetTimeFmt(fmtType, splits...)` -/
 def getTimeFmt (mask : Nat) (splits : List Bytes) : Bytes :=
@@ -331,9 +332,14 @@ def getTimeFmt (mask : Nat) (splits : List Bytes) : Bytes :=
   let s3 := if bit 5 then joinFn s2 ts (b! "05") else s2
   joinFn p3 dts s3
 
-def timeOk (ext : Ext) (layout : Bytes) (s : Bytes) : M Bool := do
-  let a ← askExt ext (.timeparse layout s)
-  pure (a.code == 1)
+/-- `parseTimeStrict(layout, s)`: decided by the transcription of `time.Parse` / `Format`
+(`Model/TimeParse.lean`) when every element of the layout is one of the six it knows; a residual otherwise -/
+def timeOk (ext : Ext) (layout : Bytes) (s : Bytes) : M Bool :=
+  match TimeParse.parseStrict layout s with
+  | some r => pure r
+  | none => do
+    let a ← askExt ext (.timeparse layout s)
+    pure (a.code == 1)
 
 def ruleYear (ext : Ext) (v o f : Bytes) (tv : GoVal) : M Bytes :=
   strRule v o f tv (timeOk ext (getTimeFmt 1 [])) (b! "it is not year, eg: 1996")
